@@ -72,7 +72,7 @@ type Explorer struct {
 
 func (e *Explorer) Violate(w *World, oracle, sig, detail string) {
 	e.RC.Violate(Violation{Oracle: oracle, Sig: sig, Detail: detail, Scenario: e.Scenario,
-		Trace: append([]string(nil), w.Trace...)})
+		Trace: append([]string(nil), w.Trace...), NDev: len(w.Devs)})
 }
 
 // Step applies ev on a fork of w (w is left untouched) and evaluates monitors.
@@ -236,14 +236,22 @@ func (e *Explorer) dev(w *World, sk []Event, i int, alphabet func(*World) []Even
 
 // Pick returns an event that resolves label in the alphabet of the state it is applied to.
 func Pick(alphabet func(*World) []Event, label string) Event {
-	return Event{Label: label, Apply: func(w *World) Outcome {
+	find := func(w *World) Event {
 		for _, ev := range alphabet(w) {
 			if ev.Label == label {
-				return ev.Apply(w)
+				return ev
 			}
 		}
 		panic("Pick: no event " + label)
-	}}
+	}
+	return Event{Label: label, Tag: "skeleton",
+		Apply: func(w *World) Outcome { return find(w).Apply(w) },
+		Msgs: func(w *World) []sdk.Msg {
+			if m := find(w).Msgs; m != nil {
+				return m(w)
+			}
+			return nil
+		}}
 }
 
 // ReplayTrace re-executes a recorded list of event labels, resolving each label
@@ -261,6 +269,11 @@ func (e *Explorer) ReplayTrace(w *World, trace []string, resolve func(w *World, 
 		cur = n
 		if os.Getenv("VERIF_VERBOSE") != "" {
 			fmt.Printf("  [replay] h=%d %-45s -> %s %s\n", n.Height(), lbl, out.Kind, out.Err)
+			if os.Getenv("VERIF_VERBOSE") == "2" {
+				for _, be := range n.LB.BeginEvents {
+					fmt.Printf("      begin-event %s %v\n", be.Type, be.Attributes)
+				}
+			}
 		}
 		if out.Kind == "halt" {
 			break
